@@ -521,10 +521,44 @@ func (oracleC18) Prop() string { return "C18" }
 // pending (by the by-ID marker) for that service and provider.
 func (oracleC18) Invariant(x *OCtx, v *View, m *Mon) []Violation {
 	var out []Violation
-	if len(v.ActiveByID) == 0 && len(v.Active) == 0 {
-		return nil
-	}
 	ctx := x.Rig.ReadCtx(v.S)
+	// the scan "providers of an owner" (what a whole-owner withdrawal walks) returns exactly the providers whose bindings name that owner
+	if len(v.Bindings) > 0 {
+		owners := map[string]map[string]bool{}
+		for _, br := range v.Bindings {
+			if len(br.B.Owner) != 20 {
+				continue
+			}
+			o := hexs(br.B.Owner)
+			if owners[o] == nil {
+				owners[o] = map[string]bool{}
+			}
+			owners[o][hexs(br.B.Provider)] = true
+		}
+		for _, o := range []sdk.AccAddress{O1, O2, P2, XX} {
+			var got, want []string
+			for p := range owners[hexs(o)] {
+				want = append(want, p)
+			}
+			it := x.Rig.sk.OwnerProvidersIterator(ctx, o)
+			for ; it.Valid(); it.Next() {
+				if k := it.Key(); len(k) > 1+len(o) {
+					got = append(got, hexs(k[1+len(o):]))
+				}
+			}
+			it.Close()
+			sort.Strings(want)
+			sort.Strings(got)
+			x.Wit("C18:providers-of-owner-scanned")
+			if strings.Join(want, ",") != strings.Join(got, ",") {
+				out = append(out, viol("C18", "scan-returns-exactly-its-subject", "state", "providers-of-owner/"+nameOf(o),
+					fmt.Sprintf("providers of owner %s: scan returns %d, bindings name %d", nameOf(o), len(got), len(want))))
+			}
+		}
+	}
+	if len(v.ActiveByID) == 0 && len(v.Active) == 0 {
+		return out
+	}
 	for _, br := range v.Bindings {
 		b := br.B
 		var want, got []string
@@ -550,6 +584,32 @@ func (oracleC18) Invariant(x *OCtx, v *View, m *Mon) []Violation {
 		if strings.Join(want, ",") != strings.Join(got, ",") {
 			out = append(out, viol("C18", "scan-returns-exactly-its-subject", "state", "pending-requests-of-binding",
 				fmt.Sprintf("pending requests of (%s,%s): scan returns %d, pending by ID %d", b.ServiceName, nameOf(b.Provider), len(got), len(want))))
+		}
+		// the same scan as providers see it (the pending-requests query): each request comes back under its own ID, and
+		// that ID says which context, batch and issue height the record belongs to
+		if len(want) > 0 {
+			if p, _ := tryPanic(func() {
+				r, err := x.Rig.sk.Requests(sdk.WrapSDKContext(ctx), &st.QueryRequestsRequest{ServiceName: b.ServiceName, Provider: b.Provider})
+				if err != nil {
+					return
+				}
+				var ids []string
+				for _, rq := range r.Requests {
+					ids = append(ids, hexs(rq.Id))
+					if cid, bc, h, _, err := st.SplitRequestID(rq.Id); err != nil || !bytes.Equal(cid, rq.RequestContextId) || bc != rq.RequestContextBatchCounter || h != rq.RequestHeight {
+						out = append(out, viol("C18", "request-id-records-context-batch-height", "state", "pending-requests-query",
+							fmt.Sprintf("pending-requests query of (%s,%s) returns a request of context %X batch %d height %d under the ID %X", b.ServiceName, nameOf(b.Provider), []byte(rq.RequestContextId), rq.RequestContextBatchCounter, rq.RequestHeight, []byte(rq.Id))))
+					}
+				}
+				sort.Strings(ids)
+				x.Wit("C18:pending-requests-query-compared")
+				if strings.Join(want, ",") != strings.Join(ids, ",") {
+					out = append(out, viol("C18", "distinct-requests-have-distinct-ids", "state", "pending-requests-query",
+						fmt.Sprintf("pending-requests query of (%s,%s) returns the IDs %v, pending are %v", b.ServiceName, nameOf(b.Provider), shortAll(ids), shortAll(want))))
+				}
+			}); p != "" {
+				out = append(out, viol("C18", "scan-does-not-panic", "state", "pending-requests-query", "pending-requests query panics: "+p))
+			}
 		}
 	}
 	return out
@@ -631,6 +691,14 @@ func (oracleC18) Step(x *OCtx, t *Trans) []Violation {
 				add("request-listed-in-its-provider-event", nameOf(r.Provider), "request "+shortReq(id)+" is not listed in the per-provider issue event of its provider")
 			}
 		}
+	}
+	return out
+}
+
+func shortAll(ids []string) []string {
+	var out []string
+	for _, id := range ids {
+		out = append(out, shortReq(id))
 	}
 	return out
 }
